@@ -213,6 +213,8 @@ MUTANTS = [
     ('C14', '505-keeps-parser', (R, HTTP, "                del self._buffers[sock]\n                return self.fire(httperror(req, res, 505))", "                return self.fire(httperror(req, res, 505))"), 'C14.h'),
     ('C18', 'bytes-args-kept-raw', (R, 'circuits/protocols/irc/message.py', "        self.args = [arg if isinstance(arg, str) else arg.decode(self.encoding) for arg in args if arg is not None]", "        self.args = [arg for arg in args if arg is not None]"), 'C18.c'),
     ('C10', 'poll-ignores-nval', (R, POLLERS, "select.POLLHUP | select.POLLERR | select.POLLNVAL", "select.POLLHUP | select.POLLERR"), 'C10.g'),
+    ('C16', 'stat-oserror-only', (R, STATIC, "        if not os.path.exists(location):\n            return None\n\n        # Is it a file we can serve directly?\n        if os.path.isfile(location):", "        try:\n            mode = os.stat(location).st_mode\n        except OSError:\n            return None\n\n        # Is it a file we can serve directly?\n        if mode & 0o100000:"), 'C16.f'),
+    ('C16', 'dedupe-by-containment', (R, UTILS, "            if (start, stop + 1) not in result:", "            if not any(first <= start and stop <= last for first, last in result):"), 'C16.g'),
 ]
 
 # behaviour-preserving edits: the check of the property must stay silent
@@ -265,4 +267,6 @@ TWINS = [
     ('C19', 'twin-dump-key-order', (R, NODE_UTILS, "        'id': id,\n        'name': e.name,\n", "        'name': e.name,\n        'id': id,\n"), None),
     ('C14', 'twin-error-status-first', (R, 'circuits/web/errors.py', "        self.response.close = True\n        self.response.status = self.code\n", "        self.response.status = self.code\n        self.response.close = True\n"), None),
     ('C03', 'twin-preen-guarded-deref', (R, POLLERS, "                    select.select([sock], [sock], [sock], 0)\n", "                    select.select([sock], [sock], [sock], 0)\n                    if hasattr(sock, 'fileno'):\n                        sock.fileno()\n"), None),
+    ('C16', 'twin-stat-both-errors', (R, STATIC, "        if not os.path.exists(location):\n            return None\n\n        # Is it a file we can serve directly?\n        if os.path.isfile(location):", "        try:\n            mode = os.stat(location).st_mode\n        except (OSError, ValueError):\n            return None\n\n        # Is it a file we can serve directly?\n        if mode & 0o100000:"), None),
+    ('C16', 'twin-no-dedupe', (R, UTILS, "            if (start, stop + 1) not in result:\n                result.append((start, stop + 1))", "            result.append((start, stop + 1))"), None),
 ]
